@@ -11,6 +11,16 @@ BASE_NOTE = ("Trusted base: CPython's ast parser, the engines under /verif/sa (p
              "conditions of the property - and not the value-level behaviour; see DESIGN.md for what is not decided.")
 
 CLAIMS = {
+    "C18": dict(
+        text=("Static rules, exhaustive over an abstract order/line domain: (R18.1) DateInterval `date in`, `interval in`, `&` and `|` are abstractly evaluated by the interpreter on every weak "
+              "ordering of the end points (and the probe), twice - with the packed date order equal to and reversed against the calendar order - and compared with set semantics; for the union the "
+              "end points are positions on an abstract day line whose consecutive gaps are 1 or 2+h (h >= 0, linear forms), so 'overlapping or adjacent' vs 'gap' is decided for all distances; "
+              "(R18.1b) Interval membership is half-open on every ordering, construction rejects end < start; (R18.2-3) construction and every set operation raise on mixed calendars on all paths, "
+              "start/end return their bound only after checking its validity, has_start/has_end report that validity, duration is computed from the guarded accessors. "
+              "Decides the comparison/distance skeleton for all orderings; __len__/__iter__ values and YearMonth.to_date_interval are not decided."),
+        design_ref="DESIGN.md section 3, C18",
+        technique="static analysis: exhaustive order-domain / linear-form abstract evaluation of the set operations + guard rules",
+    ),
     "C15": dict(
         text=("Static rules over the stdlib bridges: (R15.1) unit-of-measure inference: no expression/API call in the conversion code mixes units (ticks, microseconds, seconds, days constants); "
               "(R15.3) range guards admit the whole stdlib range: on the returning paths of to_naive_datetime the year handed to datetime has lower bound exactly MINYEAR and every field is read from "
